@@ -54,84 +54,85 @@ DotW == [k |-> "Query", Term |-> [k |-> "Term", Type |-> "TermTypeIndex", Index 
 
 -----------------------------------------------------------------------------
 (* family "re"                                                              *)
-ExpectedRe(rec, k) ==
+\* the match streams every program of the record consumes, computed once
+CtxRe(rec) ==
   LET v == rec.input
       re == rec.vars[1][2]
       fl == rec.vars[2][2]
       P == [subj |-> IF v.t = "str" THEN v.s ELSE <<>>, tab |-> rec.probes]
+  IN [v |-> v, re |-> re, fl |-> fl, P |-> P,
+      m |-> ReMatch(v, re, fl, P),                       \* match($re; $flags)
+      mg |-> MatchG(v, re, fl, P),                       \* match($re; $flags + "g")
+      t |-> ReTest(v, re, fl, P),
+      mw |-> IF re.t = "str" THEN MatchG(v, Str(WrapW(re.s)), fl, P) ELSE VOom]
+
+ExpectedRe(rec, k, c) ==
+  LET v == c.v
       f == k.f
-      str(c) == StrEval(rec.asts[k.si], c)
-      g == PlusG(fl)
-  IN CASE f = "match" -> ReMatch(v, re, fl, P)
-       [] f = "match1" -> ReMatch(v, re, Null, P)
-       [] f = "matchg" -> (IF Failed(g) THEN g ELSE ReMatch(v, re, g.o[1], P))
-       [] f = "test" -> ReTest(v, re, fl, P)
-       [] f = "test1" -> ReTest(v, re, Null, P)
-       [] f = "capture" -> ReCapture(v, re, fl, P)
-       [] f = "capture1" -> ReCapture(v, re, Null, P)
-       [] f = "scan" -> ReScan(v, re, fl, P)
-       [] f = "scan1" -> ReScan(v, re, Null, P)
-       [] f = "splits" -> ReSplits(v, re, fl, P)
-       [] f = "splits1" -> ReSplits(v, re, Null, P)
-       [] f = "split2" -> ReSplit(v, re, fl, P)
-       [] f = "sub" -> ReSub(v, re, str, fl, P)
-       [] f = "sub1" -> ReSub(v, re, str, Null, P)
-       [] f = "gsub" -> ReGsub(v, re, str, fl, P)
-       [] f = "gsub1" -> ReGsub(v, re, str, Null, P)
+      str(x) == StrEval(rec.asts[k.si], x)
+      \* the one-argument forms are the two-argument forms with null flags
+      m1 == IF c.fl = Null THEN c.m ELSE ReMatch(v, c.re, Null, c.P)
+      mg1 == IF c.fl = Null THEN c.mg ELSE MatchG(v, c.re, Null, c.P)
+  IN CASE f = "match" -> c.m
+       [] f = "match1" -> m1
+       [] f = "matchg" -> c.mg
+       [] f = "test" -> c.t
+       [] f = "test1" -> (IF c.fl = Null THEN c.t ELSE ReTest(v, c.re, Null, c.P))
+       [] f = "capture" -> CaptureOf(c.m)
+       [] f = "capture1" -> CaptureOf(m1)
+       [] f = "scan" -> ScanOf(c.mg)
+       [] f = "scan1" -> ScanOf(mg1)
+       [] f = "splits" -> SplitsOf(v, c.mg)
+       [] f = "splits1" -> SplitsOf(v, mg1)
+       [] f = "split2" -> SplitOf(v, c.mg)
+       [] f = "sub" -> SubOf(v, c.m, str)
+       [] f = "sub1" -> SubOf(v, m1, str)
+       [] f = "gsub" -> SubOf(v, c.mg, str)
+       [] f = "gsub1" -> SubOf(v, mg1, str)
        \* --- the laws of the property, run as jq programs on the real code ---
        \* . as $s | [match($re; $flags + "g") | (., (.captures[] | select(.offset >= 0))) | . as $m
        \*            | $s[$m.offset:$m.offset + $m.length] == $m.string] | all
        [] f = "law_slice" ->
-            (IF Failed(g) THEN g
-             ELSE LET m == ReMatch(v, re, g.o[1], P) IN
-                  IF Failed(m) THEN m ELSE V1(Bool(\A i \in 1..Len(m.o) : MatchSliceLaw(v, m.o[i]))))
+            (IF Failed(c.mg) THEN c.mg ELSE V1(Bool(\A i \in 1..Len(c.mg.o) : MatchSliceLaw(v, c.mg.o[i]))))
        \* gsub("(?<w>" + $re + ")"; .w; $flags) == .
        [] f = "law_gsubid" ->
-            (IF re.t # "str" THEN VTypeErr
-             ELSE LET r == ReGsub(v, Str(WrapW(re.s)), LAMBDA c : StrEval(DotW, c), fl, P) IN
-                  IF Failed(r) THEN StreamErr(r.e) ELSE VOk([i \in 1..Len(r.o) |-> Bool(r.o[i] = v)]))
+            (LET r == SubOf(v, c.mw, LAMBDA x : StrEval(DotW, x)) IN
+             IF Failed(r) THEN StreamErr(r.e) ELSE VOk([i \in 1..Len(r.o) |-> Bool(r.o[i] = v)]))
        \* [splits($re; $flags)] as $p | [match($re; $flags + "g") | .string] as $m
        \*   | ($p | length) == ($m | length) + 1 and ([range($m | length) as $i | $p[$i], $m[$i]] + [$p[-1]] | add) == .
        [] f = "law_splits" ->
-            (LET sp == ReSplits(v, re, fl, P) IN
-             IF Failed(sp) THEN StreamErr(sp.e)
-             ELSE LET m == ReMatch(v, re, g.o[1], P) IN
-                  IF Failed(m) THEN m ELSE V1(Bool(SplitsLaw(v, sp.o, m.o))))
+            (LET sp == SplitsOf(v, c.mg) IN
+             IF Failed(sp) THEN StreamErr(sp.e) ELSE V1(Bool(SplitsLaw(v, sp.o, c.mg.o))))
        \* test($re; $flags) == ([match($re; $flags)] | length > 0)
        [] f = "law_test" ->
-            (LET m == ReMatch(v, re, fl, P)
-                 t == ReTest(v, re, fl, P)
-             IN IF Failed(m) THEN m ELSE IF Failed(t) THEN t ELSE V1(Bool(t.o[1] = Bool(Len(m.o) > 0))))
+            (IF Failed(c.m) THEN c.m ELSE IF Failed(c.t) THEN c.t ELSE V1(Bool(c.t.o[1] = Bool(Len(c.m.o) > 0))))
        \* [capture($re; $flags)] == [match($re; $flags) | [.captures[] | select(.name != null) | {key: .name, value: .string}] | from_entries]
        [] f = "law_capture" ->
-            (LET c == ReCapture(v, re, fl, P) IN IF Failed(c) THEN StreamErr(c.e) ELSE V1(True))
+            (LET x == CaptureOf(c.m) IN IF Failed(x) THEN StreamErr(x.e) ELSE V1(True))
        [] OTHER -> VOom
 
 \* assumptions RegexMC makes about the engine, checked on what it really answered
-ProbeOK(b, p) ==
+ProbeOK(bset, p) ==
   ~p.ok \/
   (/\ \A i \in 1..Len(p.all) :
         /\ Len(p.all[i]) = 2 * (Len(p.names) + 1)
         /\ p.all[i][1] >= 0 /\ p.all[i][1] <= p.all[i][2]
-        /\ \A j \in 1..Len(p.all[i]) : p.all[i][j] >= 0 => IsBoundary(b, p.all[i][j])
+        /\ \A j \in 1..Len(p.all[i]) : p.all[i][j] >= 0 => p.all[i][j] \in bset
         /\ \A j \in 1..Len(p.names) :
              \/ p.all[i][2 * j + 1] < 0
              \/ (p.all[i][1] <= p.all[i][2 * j + 1] /\ p.all[i][2 * j + 1] <= p.all[i][2 * j + 2] /\ p.all[i][2 * j + 2] <= p.all[i][2])
    /\ p.first = SubSeq(p.all, 1, IF Len(p.all) > 0 THEN 1 ELSE 0)
    /\ p.test = (Len(p.all) > 0))
 
-\* the laws on the specification's objects, for every probed pattern of this record
-LawsRe(rec) ==
-  LET v == rec.input IN
-  v.t = "str" =>
-    \A i \in 1..Len(rec.probes) :
-      LET p == rec.probes[i] IN
-      p.ok => LET ms == MatchObjects(v.s, p.all, p.names) IN
-              /\ AdvancingLaw(v, ms)
-              /\ \A j \in 1..Len(ms) : MatchSliceLaw(v, ms[j])
-
 EnvRe(rec) ==
-  rec.input.t = "str" => LET b == Utf8Enc(rec.input.s) IN \A i \in 1..Len(rec.probes) : ProbeOK(b, rec.probes[i])
+  rec.input.t = "str" => LET bset == BoundarySet(Utf8Enc(rec.input.s)) IN \A i \in 1..Len(rec.probes) : ProbeOK(bset, rec.probes[i])
+
+\* the laws on the specification's objects for this instance: the global matches of $re and of the wrapped $re
+LawsRe(c) ==
+  c.v.t = "str" =>
+    \A ms \in {c.mg, c.mw} :
+      (~Failed(ms)) => (/\ AdvancingLaw(c.v, ms.o)
+                        /\ \A j \in 1..Len(ms.o) : MatchSliceLaw(c.v, ms.o[j]))
 
 -----------------------------------------------------------------------------
 (* family "pos"                                                             *)
@@ -169,11 +170,11 @@ LawsPos(rec) ==
        /\ \A i \in 1..Len(ts) : ts[i].t = "str" => FindLaw(v, ts[i], Native("indices", v, <<ts[i]>>).o[1].a)
 
 -----------------------------------------------------------------------------
-RunVerdict(rec, run) ==
+RunVerdict(rec, run, c) ==
   IF "panic" \in DOMAIN run /\ run.panic # "" THEN [v |-> "panic"]
   ELSE IF "cerr" \in DOMAIN run THEN [v |-> "cerr"]
   ELSE IF "long" \in DOMAIN run /\ run.long THEN [v |-> "long"]
-  ELSE LET exp == IF rec.meta.fam = "re" THEN ExpectedRe(rec, run.k) ELSE ExpectedPos(rec, run.k)
+  ELSE LET exp == IF rec.meta.fam = "re" THEN ExpectedRe(rec, run.k, c) ELSE ExpectedPos(rec, run.k)
            re == IF "err" \in DOMAIN run THEN run.err ELSE [k |-> "none"]
        IN IF exp.e = OOM THEN [v |-> "oom"]
           ELSE IF Len(exp.o) = Len(run.out) /\ (\A i \in 1..Len(exp.o) : VMatch(exp.o[i], run.out[i])) /\ VMatchErr(exp.e, re)
@@ -181,10 +182,13 @@ RunVerdict(rec, run) ==
                ELSE [v |-> "mismatch", exp |-> exp]
 
 RecVerdict(rec) ==
-  [id |-> rec.id,
-   runs |-> [j \in 1..Len(rec.runs) |-> RunVerdict(rec, rec.runs[j])],
-   env |-> IF rec.meta.fam = "re" THEN EnvRe(rec) ELSE TRUE,
-   laws |-> IF rec.meta.fam = "re" THEN (EnvRe(rec) => LawsRe(rec)) ELSE LawsPos(rec)]
+  LET isre == rec.meta.fam = "re"
+      env == IF isre THEN EnvRe(rec) ELSE TRUE
+      c == IF isre /\ env THEN CtxRe(rec) ELSE [none |-> TRUE]
+  IN [id |-> rec.id,
+      runs |-> IF env THEN [j \in 1..Len(rec.runs) |-> RunVerdict(rec, rec.runs[j], c)] ELSE <<>>,
+      env |-> env,
+      laws |-> IF isre THEN (env => LawsRe(c)) ELSE LawsPos(rec)]
 
 VARIABLE done
 Init == done = ndJsonSerialize(IOEnv.VERIF_OUT, [i \in 1..Len(Trace) |-> RecVerdict(Trace[i])])
